@@ -126,24 +126,13 @@ func init() {
 		cf := parse("internal/server/communicator.go")
 		mh := findFunc(cf, "ConnectionHandler", "muxHandler")
 		closes := false
-		tgt := openedTarget14(mh)
 		if mh == nil {
 			fail("communicator.go: muxHandler not found")
 		} else {
-			ast.Inspect(mh.Body, func(n ast.Node) bool {
-				c, ok := n.(*ast.CallExpr)
-				if !ok {
-					return true
-				}
-				fn := src(c.Fun)
-				if (strings.HasSuffix(fn, "TryClose") || strings.HasSuffix(fn, "LogClose")) && len(c.Args) == 1 && src(c.Args[0]) == tgt {
-					closes = true
-				}
-				if fn == tgt+".Close" {
-					closes = true
-				}
-				return true
-			})
+			// the function that opens the target: muxHandler, or the helper of the package it hands the matched channel to
+			sidx := pkgFuncIndex14("internal/server")
+			opener, _ := openerOf14(mh, sidx)
+			closes = closesIn14(opener, bind14{}, openedTarget14(opener), sidx, 0)
 		}
 		fmt.Fprintf(b, "/-- internal/server/communicator.go muxHandler closes the target connection it opened -/\ndef muxClosesTarget : Bool := %v\n\n", closes)
 
